@@ -20,6 +20,7 @@ import LtVerif.Proofs.CqRead
 import LtVerif.Proofs.CqLive
 import LtVerif.Proofs.CqFuel
 import LtVerif.Proofs.CqKeep
+import LtVerif.Proofs.CqSplice
 namespace LtVerif.C17
 open LtVerif LtVerif.Cq
 
@@ -546,5 +547,39 @@ def s1Ops : List Op :=
   [.appendMemToTempfile false [1, 2, 3, 4, 5], .appendMemToTempfile false [6], .steal true 2, .markWritten false 3]
 example : ((run (init s1World rfl) s1Ops).w.files 0).nlink = 0 := by decide
 example : (step (run (init s1World rfl) s1Ops) (.readData true 2)).2 = .read (some [1, 2]) := by decide
+
+/-- The splice() path: chunkqueue_append_splice_pipe_tempfile(cq, pipe, len) with `d` in the
+    pipe (`spliceStep`, Model/CqSplice.lean) is not an `Op`; with no scripted write result
+    pending (splice() itself never takes one; the pwritev() calls of the preceding
+    chunkqueue_to_tempfiles() would) it IS the pwrite() path — the octets go to file position
+    `file.length` of the tail temp chunk, whatever part of that chunk has been consumed
+    (`offset`) — so `c17_fault_safe` transfers: the queue's byte stream is the old one followed
+    by `d` (a prefix of that when -1 is returned: mkostemp failure / EBADF), the other queue
+    and the invariants are untouched. -/
+theorem c17_splice_fifo (base : Nat → Int) (s : Sys) (h : FInv base s) (qi : Bool) (d : Bytes)
+    (hw : s.w.wsched = []) :
+    spliceStep s qi d = step s (.appendMemToTempfile qi d) ∧
+    ∀ ok, (spliceStep s qi d).2 = .rc ok →
+      FInv base (spliceStep s qi d).1 ∧
+      (if ok then (spliceStep s qi d).1.abs qi = s.abs qi ++ d
+        else (spliceStep s qi d).1.abs qi <+: s.abs qi ++ d) ∧
+      (spliceStep s qi d).1.abs (!qi) = s.abs (!qi) := by
+  have e : spliceStep s qi d = step s (.appendMemToTempfile qi d) := by
+    unfold spliceStep
+    rw [appendSplice_eq _ _ _ hw]
+    rfl
+  refine ⟨e, fun ok hrc => ?_⟩
+  rw [e] at hrc ⊢
+  exact (c17_fault_safe base s h qi).1 d ok hrc
+
+/-- splice 5 octets, 2 of them are sent, splice 2 more: the 3 unsent ones are still in front
+    (the tail temp chunk had offset 2, length 5 when the second splice appended at position 5) -/
+def spliceWorld : World := { cs := 1024, defTempSize := 100, ndirs := 1 }
+def spliceSys : Sys :=
+  (step (spliceStep (init spliceWorld rfl) false [1, 2, 3, 4, 5]).1 (.markWritten false 2)).1
+example : spliceSys.w.wsched = [] := rfl
+example : (spliceStep spliceSys false [6, 7]).2 = .rc true := by decide
+example : (spliceStep spliceSys false [6, 7]).1.abs false = [3, 4, 5, 6, 7] := by decide
+example : (spliceStep spliceSys false [6, 7]).1.q0.chunks = [.file 0 2 7 true .rw] := by decide
 
 end LtVerif.C17
